@@ -3498,6 +3498,9 @@ size_t ZSTD_generateSequences(ZSTD_CCtx* zc, ZSTD_Sequence* outSeqs,
     {
         const size_t ret = ZSTD_compress2(zc, dst, dstCapacity, src, srcSize);
         ZSTD_customFree(dst, ZSTD_defaultCMem);
+        /* the collector only lives for this call : later compressions
+         * with this context must produce output, not write into outSeqs */
+        zc->seqCollector.collectSequences = 0;
         FORWARD_IF_ERROR(ret, "ZSTD_compress2 failed");
     }
     assert(zc->seqCollector.seqIndex <= ZSTD_sequenceBound(srcSize));
